@@ -268,7 +268,10 @@ CHECKS = {
             "through a UCMM subclass and through main()'s --route-path/-S parsing, each request issued twice on the simulator: accept iff the statement's rule says so; a refusal "
             "must carry an error status, perform zero Attribute accesses (counted through the attribute_class extension point) and "
             "leave the store unchanged. All route-path texts of 1..2 (3) segments over port/link alphabets in 5 notations are "
-            "compared with the segments they spell, as text and as the decoded list object (parsed twice, argument unchanged).",
+            "compared with the segments they spell, as text and as the decoded list object (parsed twice, argument unchanged). Every ordered "
+            "pair of personalities is also built as two simulators one after the other in one process. Client side: every sequence of "
+            "<= 2 (3) calls on one client object x route_path argument x changes of its route_path_default in between; each request put "
+            "on the wire must carry the route path its call spelled (reference decoder).",
             "No request leads with a hop of a configured route table (no forwarding); main() only admits single-segment route paths.",
             "DESIGN.md §3 C15"),
 }
